@@ -21,6 +21,8 @@ Oracle : transportable => the client call raises x with type(x) is exactly the c
 import atexit
 import builtins
 import socket
+import sys
+import threading
 import traceback
 
 from hypothesis import strategies as st
@@ -422,7 +424,83 @@ def _is_local_comm_failure(x):
 def run_case(case):
     if case.get("level") == "codec":
         return run_codec_case(case)
+    if case.get("level") == "concurrent":
+        return run_concurrent_case(case)
     return run_live_case(case)
+
+
+def run_concurrent_case(case):
+    """several clients (own proxy and connection each) provoke transportable exceptions at the same time: what each of them
+    gets must be what it gets when it is alone (judged by the same oracle as the sequential cases)"""
+    subs = [dict(sub, servertype=case["servertype"], ser=case["ser"], level="live") for sub in case["subs"]]
+    viols = []
+    s = served(case["servertype"])
+
+    def one(sub, exp, sink, prefix):
+        def viol(sig, what):
+            spec = sub["spec"]
+            sink.append(Violation("C07:" + prefix + sig, ("%s/%s/%s %s.%s args=%s attrs=%s special=%s: %s%s" % (
+                case["servertype"], case["ser"], sub["kind"], spec["ns"], spec["cls"], short(spec.get("args"), 80), short(spec.get("attrs"), 60),
+                short(spec.get("special"), 60), "(with %d other clients active) " % (len(subs) - 1) if prefix else "", what))[:900]))
+        _tag, exp_type, exp_args, exp_vars, _local = exp
+        p = live.proxy(s.uri(OBJ_ID), serializer=case["ser"], timeout=HANG_GUARD_S)
+        try:
+            out = _perform(p, sub)
+            want_good = 0 if sub["kind"] in ("call", "getattr", "setattr", "batch-first") else sub.get("k", 0)
+            _judge_transportable(sub, out, want_good, exp_type, exp_args, exp_vars, viol)
+        finally:
+            try:
+                p._pyroRelease()
+            except Exception:
+                pass
+    todo = []
+    for sub in subs:
+        if family(sub) != "transportable" or (sub["spec"]["cls"] == "StopIteration" and sub["kind"] == "stream"):
+            continue
+        exp = expectation(sub["spec"])
+        if exp[0] != "ok":
+            continue
+        solo = []
+        one(sub, exp, solo, "")
+        pop_notes(sub)
+        if solo:
+            viols.extend(solo)      # fails already when alone: reported as what it is, and left out of the concurrent phase
+            continue
+        todo.append((sub, exp))
+    if len(todo) >= 2:
+        sinks = [[] for _ in todo]
+        start = threading.Barrier(len(todo))
+
+        def worker(i):
+            sub, exp = todo[i]
+            try:
+                start.wait(30)
+                for _ in range(case.get("rounds", 4)):
+                    one(sub, exp, sinks[i], "under-concurrency:")
+                    if sinks[i]:
+                        break
+            except Exception as x:
+                sinks[i].append(Violation("C07:harness:concurrent-worker", "worker failed: %r" % (x,)))
+        old = sys.getswitchinterval()
+        sys.setswitchinterval(1e-5)         # stimulus only: makes thread switches inside the serializers likely
+        try:
+            threads = [threading.Thread(target=worker, args=(i,)) for i in range(len(todo))]
+            for t in threads:
+                t.start()
+            for t in threads:
+                t.join()
+        finally:
+            sys.setswitchinterval(old)
+        for sub, _exp in todo:
+            pop_notes(sub)
+        for sink in sinks:
+            viols.extend(sink[:1])
+        case["_concurrent_clients"] = len(todo)
+    _cleanup_objects()
+    _settle(s)
+    if not s.loop_alive():
+        viols.append(Violation("C07:daemon-loop-died", "the request loop terminated: %r" % (s.loop_error,)))
+    return viols
 
 
 def _unicode_bounds_ok(spec):
@@ -934,6 +1012,20 @@ def case_strategy(draw, servertype, ser):
     return case
 
 
+@st.composite
+def concurrent_strategy(draw, servertype, ser):
+    n = draw(st.integers(2, 4))
+    subs = []
+    for _ in range(n):
+        kind = draw(st.sampled_from(KINDS))
+        k = draw(st.integers(0, 2))
+        spec = draw(spec_strategy())
+        if kind in ("getattr", "setattr") and any(x["kind"] in ("getattr", "setattr") for x in subs):
+            kind = "call"       # the property of the (single) target object raises what set_spec stored: one such client at a time
+        subs.append({"kind": kind, "k": k if kind in ("batch-middle", "batch-last", "stream") else 0, "spec": spec})
+    return {"level": "concurrent", "servertype": servertype, "ser": ser, "subs": subs, "rounds": 4}
+
+
 def codec_strategy(ser):
     base_only = [("builtins", n) for n in BUILTIN_BASE_ONLY if n != "BaseExceptionGroup"]
     return st.builds(lambda spec, alt, use_alt: {"level": "codec", "ser": ser, "spec": dict(spec, ns=alt[0], cls=alt[1]) if use_alt and not spec.get("special") else spec},
@@ -945,6 +1037,8 @@ def codec_strategy(ser):
 # ------------------------------------------------------------------------------------------------
 
 def _nontrivial(case):
+    if case.get("level") == "concurrent":
+        return sum(1 for sub in case["subs"] if family(dict(sub, ser=case["ser"])) == "transportable" and expectation(sub["spec"])[0] == "ok") >= 2
     spec = case["spec"]
     if not (spec.get("args") or spec.get("attrs")):
         return False
@@ -952,6 +1046,8 @@ def _nontrivial(case):
 
 
 def _labels(case):
+    if case.get("level") == "concurrent":
+        return ["level:concurrent", "ser:" + case["ser"], "servertype:" + case["servertype"], "clients:%d" % len(case["subs"])]
     spec = case["spec"]
     l = ["level:" + case.get("level", "live"), "ser:" + case["ser"], "ns:" + spec["ns"]]
     if case.get("level", "live") == "live":
@@ -968,7 +1064,8 @@ def _labels(case):
 def SHARDS(tier):
     # quick: server type x serializer; thorough: the same twice (part 1 only searches, with its own seed)
     parts = (0, 1) if tier == "thorough" else (0,)
-    return [{"servertype": t, "ser": s, "part": p} for p in parts for t in SERVERTYPES for s in SERIALIZERS]
+    return [{"servertype": t, "ser": s, "part": p} for p in parts for t in SERVERTYPES for s in SERIALIZERS] + \
+        [{"servertype": "thread", "ser": s, "part": "concurrent"} for s in SERIALIZERS] * len(parts)
 
 
 def enumerated_cases(servertype, ser, tier):
@@ -1003,6 +1100,12 @@ def codec_cases(ser):
 
 def run(ctx):
     servertype, ser, part = ctx.shard["servertype"], ctx.shard["ser"], ctx.shard.get("part", 0)
+    if part == "concurrent":
+        try:
+            ctx.search(concurrent_strategy(servertype, ser), run_case, ctx.n(60, 600), nontrivial=_nontrivial, labels=_labels, name="concurrent", max_rounds=3)
+        finally:
+            stop_all()
+        return
     try:
         if servertype == SERVERTYPES[0] and part == 0:
             # the serializer level does not depend on the server type: run it in one of the shards of each serializer
